@@ -78,7 +78,10 @@ def concrete_state(snapshot, in_tx, heap_from=None):
 def base_heap(st, rec):
     hp = st.heap
     hp["AppNamespace._app_id"] = Store(K(INT, EMPTY), APP, S(rec["app_id"]))
-    hp["AppNamespace._mailboxes"] = K(INT, K(Str, IntVal(0)))
+    reg = K(Str, IntVal(0))
+    for k in rec.get("registry_pre", []):
+        reg = Store(reg, S(k), MBOX)
+    hp["AppNamespace._mailboxes"] = Store(K(INT, K(Str, IntVal(0))), APP, reg)
     hp["Mailbox._app"] = Store(K(INT, IntVal(0)), MBOX, APP)
     hp["Mailbox._app_id"] = Store(K(INT, EMPTY), MBOX, S(rec["app_id"]))
     hp["Mailbox._mailbox_id"] = Store(K(INT, EMPTY), MBOX, S(rec.get("mailbox_id", "")))
@@ -117,7 +120,89 @@ def holds(clause, facts, timeout_ms=10000):
     return None
 
 
-SKIP = ("registry_wf", "preserves.")      # clauses about in-memory registries / re-stated invariants
+SKIP_PRE = ("GH", "conn_ok", "apps_wf")     # global heap invariants about connections: there are none in these runs
+SKIP = ("registry_wf", "preserves.", "ensures.shortest")      # clauses about in-memory registries / re-stated invariants;
+# `shortest` quantifies over all 999 short names through the uninterpreted dec(): not decidable on a concrete state in useful time
+
+
+def prepare(con, target, rec):
+    """the contract of `target` instantiated on one real run: (facts, requires, clauses to hold)"""
+    pre = concrete_state(rec["pre"], {"ch": False, "us": False})
+    base_heap(pre, rec)
+    post = concrete_state(rec["post"], rec["post"]["in_tx"], heap_from=pre)
+    facts = [H.CFG_USAGE == BoolVal(rec["usage"]), H.CFG_BLUR_NONE == BoolVal(rec["blur"] is None),
+             H.CFG_BLUR == RealVal(rec["blur"] or 0)]
+    if isinstance(rec.get("result"), str) and rec["result"].isdigit() and str(int(rec["result"])) == rec["result"]:
+        # ground instance of the decimal-rendering functions for the answer (dec/undec are uninterpreted)
+        facts += [dec(IntVal(int(rec["result"]))) == S(rec["result"]), undec(S(rec["result"])) == IntVal(int(rec["result"]))]
+    args = {}
+    for n, sp in con.params.items():
+        v = rec["args"].get(n)
+        if sp == "sm":
+            args[n] = VNamed("SidedMessage", {"side": VZ(S(v["side"]), "str"), "phase": VZ(S(v["phase"]), "str"),
+                                              "body": VZ(S(v["body"]), "str"), "server_rx": VZ(RealVal(v["server_rx"]), "real"),
+                                              "msg_id": VZ(term(v["msg_id"], "json"), "json")})
+        elif sp in ("str", "real", "bool", "int"):
+            args[n] = VZ(term(v, sp), sp)
+        elif sp == "optstr":
+            args[n] = VOpt(BoolVal(v is None), VZ(S(v or ""), "str"))
+        else:
+            raise ValueError("argument spec %s" % sp)
+    self_ref = IntVal(MBOX if con.cls == "Mailbox" else APP)
+    result = None
+    if "registry_post" in rec:
+        # the registry of the namespace as the real run left it; a key that was not there before is the
+        # Mailbox object open_mailbox made
+        hp = post.heap
+        reg = K(Str, IntVal(0))
+        for k in rec["registry_post"]:
+            if k in rec.get("registry_pre", []):
+                reg = Store(reg, S(k), MBOX)
+                continue
+            reg = Store(reg, S(k), NEWOBJ)
+            post.alloc = Store(pre.alloc, NEWOBJ, True)
+            hp["Mailbox._app"] = Store(pre.heap["Mailbox._app"], NEWOBJ, APP)
+            hp["Mailbox._app_id"] = Store(pre.heap["Mailbox._app_id"], NEWOBJ, S(rec["app_id"]))
+            hp["Mailbox._mailbox_id"] = Store(pre.heap["Mailbox._mailbox_id"], NEWOBJ, S(k))
+            hp["Mailbox._listeners"] = Store(pre.heap["Mailbox._listeners"], NEWOBJ, K(INT, BoolVal(False)))
+        hp["AppNamespace._mailboxes"] = Store(pre.heap["AppNamespace._mailboxes"], APP, reg)
+    if target in ("AppNamespace.claim_nameplate", "AppNamespace.allocate_nameplate"):
+        if rec["result"] is not None:
+            result = VZ(S(rec["result"]), "str")
+    elif target == "AppNamespace.open_mailbox":
+        if rec["result"] is not None:
+            result = VRef(IntVal(NEWOBJ), "Mailbox")
+    elif target == "AppNamespace._get_nameplate_ids":
+        mem = K(Str, BoolVal(False))
+        for x in rec["result"]:
+            mem = Store(mem, S(x), True)
+        result = VSet("str", mem)
+    elif target == "AppNamespace.prune":
+        result = VZ(BoolVal(bool(rec["result"])), "bool")
+    c = Ctx(pre, post, args, self_ref, con.cls, result=result)
+    c0 = Ctx(pre, pre, args, self_ref, con.cls)
+    requires = [(n, t) for n, t in con.eval_requires(c0) if not any(k in n for k in SKIP_PRE)]
+    todo = []
+    rclauses = con.eval_raises(c)
+    if rec["exc"]:
+        mine = [r for r in rclauses if r[0] == rec["exc"]]
+        if not mine:
+            return facts, requires, None
+        for (exc, name, when, posts, fields, tags, iff) in mine:
+            todo.append(("raises.%s.%s.when" % (exc, name), when))
+            todo += [("raises.%s.%s.%s" % (exc, name, pn), t) for pn, t in posts]
+    else:
+        for it in con.eval_ensures(c):
+            todo.append(("ensures." + it[0], it[1]))
+        for (exc, name, when, posts, fields, tags, iff) in rclauses:
+            if iff:
+                todo.append(("raises.%s.%s.not_when" % (exc, name), Not(when)))
+    return facts, requires, todo
+
+
+def describe(rec, clause):
+    return {"clause": clause, "args": rec["args"], "app": rec["app_id"], "mailbox_id": rec.get("mailbox_id"), "usage": rec["usage"],
+            "blur": rec["blur"], "raised": rec["exc"], "result": rec["result"], "pre": rec["pre"], "post": rec["post"]}
 
 
 def check_target(target, seed, cases):
@@ -125,68 +210,22 @@ def check_target(target, seed, cases):
     con = REGISTRY[qual]
     recs = run_native(target, seed, cases)
     out = {"target": target, "cases": len(recs), "clauses_checked": 0, "clauses_true": 0, "undecided": 0, "false": [], "skipped": 0,
-           "exceptional_cases": 0, "nontrivial_cases": 0}
+           "exceptional_cases": 0, "nontrivial_cases": 0, "precondition_false": 0}
     for rec in recs:
-        pre = concrete_state(rec["pre"], {"ch": False, "us": False})
-        base_heap(pre, rec)
-        post = concrete_state(rec["post"], rec["post"]["in_tx"], heap_from=pre)
         if rec["pre"]["ch"] != rec["post"]["ch"] or rec["pre"]["us"] != rec["post"]["us"]:
             out["nontrivial_cases"] += 1
-        facts = [H.CFG_USAGE == BoolVal(rec["usage"]), H.CFG_BLUR_NONE == BoolVal(rec["blur"] is None),
-                 H.CFG_BLUR == RealVal(rec["blur"] or 0)]
-        args = {}
-        for n, sp in con.params.items():
-            v = rec["args"].get(n)
-            if sp == "sm":
-                args[n] = VNamed("SidedMessage", {"side": VZ(S(v["side"]), "str"), "phase": VZ(S(v["phase"]), "str"),
-                                                  "body": VZ(S(v["body"]), "str"), "server_rx": VZ(RealVal(v["server_rx"]), "real"),
-                                                  "msg_id": VZ(term(v["msg_id"], "json"), "json")})
-            elif sp in ("str", "real", "bool", "int"):
-                args[n] = VZ(term(v, sp), sp)
-            else:
-                raise ValueError("argument spec %s" % sp)
-        self_ref = IntVal(MBOX if con.cls == "Mailbox" else APP)
-        result = None
-        if target == "AppNamespace.claim_nameplate":
-            # the Mailbox object open_mailbox registered
-            rows = [r for r in rec["post"]["ch"]["nameplates"] if r["app_id"] == rec["app_id"] and r["name"] == rec["args"]["name"]]
-            if rows:
-                mid = S(rows[0]["mailbox_id"])
-                hp = post.heap
-                hp["AppNamespace._mailboxes"] = Store(pre.heap["AppNamespace._mailboxes"], APP,
-                                                      Store(pre.heap["AppNamespace._mailboxes"][APP], mid, NEWOBJ))
-                post.alloc = Store(pre.alloc, NEWOBJ, True)
-                hp["Mailbox._app"] = Store(pre.heap["Mailbox._app"], NEWOBJ, APP)
-                hp["Mailbox._app_id"] = Store(pre.heap["Mailbox._app_id"], NEWOBJ, S(rec["app_id"]))
-                hp["Mailbox._mailbox_id"] = Store(pre.heap["Mailbox._mailbox_id"], NEWOBJ, mid)
-                hp["Mailbox._listeners"] = Store(pre.heap["Mailbox._listeners"], NEWOBJ, K(INT, BoolVal(False)))
-            if rec["result"] is not None:
-                result = VZ(S(rec["result"]), "str")
-        elif target == "AppNamespace._get_nameplate_ids":
-            mem = K(Str, BoolVal(False))
-            for x in rec["result"]:
-                mem = Store(mem, S(x), True)
-            result = VSet("str", mem)
-        elif target == "AppNamespace.prune":
-            result = VZ(BoolVal(bool(rec["result"])), "bool")
-        c = Ctx(pre, post, args, self_ref, con.cls, result=result)
-        todo = []
-        rclauses = con.eval_raises(c)
+        facts, requires, todo = prepare(con, target, rec)
+        # a case outside the contract's precondition says nothing about its postcondition
+        bad_pre = [n for n, t in requires if holds(t, facts, 5000) is False]
+        if bad_pre:
+            out["precondition_false"] += 1
+            out["precondition_false_names"] = sorted(set(out.get("precondition_false_names", []) + bad_pre))
+            continue
         if rec["exc"]:
             out["exceptional_cases"] += 1
-            mine = [r for r in rclauses if r[0] == rec["exc"]]
-            if not mine:
-                out["false"].append({"case": rec["args"], "clause": "undeclared exception " + rec["exc"]})
-                continue
-            for (exc, name, when, posts, fields, tags, iff) in mine:
-                todo.append(("raises.%s.%s.when" % (exc, name), when))
-                todo += [("raises.%s.%s.%s" % (exc, name, pn), t) for pn, t in posts]
-        else:
-            for it in con.eval_ensures(c):
-                todo.append(("ensures." + it[0], it[1]))
-            for (exc, name, when, posts, fields, tags, iff) in rclauses:
-                if iff:
-                    todo.append(("raises.%s.%s.not_when" % (exc, name), Not(when)))
+        if todo is None:
+            out["false"].append(describe(rec, "undeclared exception " + rec["exc"]))
+            continue
         for name, t in todo:
             if any(k in name for k in SKIP):
                 out["skipped"] += 1
@@ -197,14 +236,46 @@ def check_target(target, seed, cases):
                 out["clauses_true"] += 1
             elif r is None:
                 out["undecided"] += 1
+                out.setdefault("undecided_names", {}).setdefault(name, 0)
+                out["undecided_names"][name] += 1
             else:
-                out["false"].append({"clause": name, "args": rec["args"], "app": rec["app_id"], "usage": rec["usage"],
-                                     "blur": rec["blur"], "pre": rec["pre"]["ch"], "post": rec["post"]["ch"]})
+                out["false"].append(describe(rec, name))
     return out
 
 
+def find_failing(target, clause, seeds=(11, 12), cases=25, budget_s=150):
+    """Counterexample search for a failed obligation of `target` (replay on the real code): run the real method
+    on reachable states and look for a run on which the contract clause the obligation belongs to is false
+    (precondition true).  `clause` is a prefix such as 'ensures.usage_row' or 'raises.CrowdedError'; '' = any.
+    -> description of the failing run, or None"""
+    con = REGISTRY["server." + target]
+    t0 = time.time()
+    for seed in seeds:
+        recs = run_native(target, seed, cases)
+        for rec in recs:
+            if time.time() - t0 > budget_s:
+                return None
+            facts, requires, todo = prepare(con, target, rec)
+            if todo is None:
+                if any(holds(t, facts, 5000) is False for n, t in requires):
+                    continue
+                d = describe(rec, "undeclared exception " + rec["exc"])
+                d["seed"] = seed
+                return d
+            mine = [(n, t) for n, t in todo if n.startswith(clause) and not any(k in n for k in SKIP)]
+            for name, t in mine:
+                if holds(t, facts, 5000) is False:
+                    if any(holds(t2, facts, 5000) is False for n2, t2 in requires):
+                        break
+                    d = describe(rec, name)
+                    d["seed"] = seed
+                    return d
+    return None
+
+
 TARGETS = ["Mailbox.open", "Mailbox._add_message", "AppNamespace.release_nameplate", "AppNamespace.claim_nameplate",
-           "AppNamespace._get_nameplate_ids", "AppNamespace.prune"]
+           "AppNamespace._get_nameplate_ids", "AppNamespace.prune", "Mailbox.close", "AppNamespace.open_mailbox",
+           "AppNamespace.allocate_nameplate"]
 
 
 def canary(seed=1):
@@ -224,7 +295,7 @@ def run_all(seed, cases=30, targets=None):
     for t in (targets or TARGETS):
         r = check_target(t, seed, cases)
         out["targets"][t] = {k: r[k] for k in ("cases", "clauses_checked", "clauses_true", "undecided", "skipped",
-                                               "exceptional_cases", "nontrivial_cases")}
+                                               "exceptional_cases", "nontrivial_cases", "precondition_false")}
         out["clauses_checked"] += r["clauses_checked"]
         out["clauses_true"] += r["clauses_true"]
         out["undecided"] += r["undecided"]
